@@ -66,7 +66,7 @@ func (r *vhRes) LinkAddressRequest(addr, localAddr tcpip.Address, linkEP LinkEnd
 	return nil
 }
 func (r *vhRes) ResolveStaticAddress(addr tcpip.Address) (tcpip.LinkAddress, bool) { return "", false }
-func (r *vhRes) LinkAddressProtocol() tcpip.NetworkProtocolNumber                 { return 0x0800 }
+func (r *vhRes) LinkAddressProtocol() tcpip.NetworkProtocolNumber                  { return 0x0800 }
 
 // O3: lookups never report an entry for a different address or after it expired
 func vh_cache_get() {
